@@ -44,6 +44,10 @@ def key_classes(rng, quick):
     for k in CG.endo_scalars(R)[: (8 if quick else 40)]:
         if 1 <= k % R < R:
             out.append(("boundary", k % R))                                 # eigenvalues of the curve endomorphism and neighbours
+    from .common import bit_patterns
+    for v in bit_patterns(255, rng, 2 if quick else 10):
+        if 1 <= v < R:
+            out.append(("bitlen", v))                                         # structured bit patterns (zero bytes, runs, low/high weight)
     for _ in range(8 if quick else 200):
         out.append(("random", rng.randrange(1, R)))
     for _ in range(2 if quick else 30):
@@ -121,7 +125,7 @@ def run(rec):
                 j += 1
                 yield (lambda k=base + j: call(Sx.SkToPk, k))
         soak_then_reprobe(rec, "distinct-secret-keys", [lambda k=k: (call(Sx.SkToPk, k), call(Sx.Sign, k, b"soak probe")) for k in first], distinct_sks(),
-                          soak_size(["py_ecc.bls.ciphersuites", "py_ecc.bls.g2_primitives", "py_ecc.bls.point_compression"]))
+                          soak_size(["py_ecc.bls.ciphersuites", "py_ecc.bls.g2_primitives", "py_ecc.bls.point_compression"], cap=2500 if quick else 20000))
     else:
         rec.case("soak:distinct-secret-keys", None, nontrivial=False)
     # long message once per run
